@@ -55,13 +55,24 @@ fn flow_one(challenge: PkceCodeChallenge, verifier: PkceCodeVerifier, response_t
     let (url, _) = areq.url();
     let mut ch = String::new();
     let mut m = String::new();
+    // (a server reads the FIRST occurrence of a parameter, or refuses a repeated one: each of the two occurs exactly once)
+    let (mut n_ch, mut n_m) = (0, 0);
     for (k, v) in url.query_pairs() {
         if k == "code_challenge" {
-            ch = v.to_string();
+            n_ch += 1;
+            if n_ch == 1 {
+                ch = v.to_string();
+            }
         }
         if k == "code_challenge_method" {
-            m = v.to_string();
+            n_m += 1;
+            if n_m == 1 {
+                m = v.to_string();
+            }
         }
+    }
+    if n_ch != 1 || n_m != 1 {
+        return (format!("code_challenge-occurs-{}-times-method-{}-times", n_ch, n_m), ch, m);
     }
     let cap: RefCell<Option<HttpRequest>> = RefCell::new(None);
     let http = |r: HttpRequest| -> Result<HttpResponse, FakeError> {
